@@ -450,7 +450,7 @@ func main() {
 		Coverage: map[string]any{
 			"states": g.configs, "transitions": g.evals, "traces_validated_against_impl": g.evals,
 			"evaluations": g.evals, "distinct_nontrivial": len(g.outcomes),
-			"rule":       "every configuration of a block (call shape x acting user) = full product of the per-node covering sets of (owner, group, mode); each built by an administrator history on a fresh MemFS and on tmpfs, then every call of the shape is executed on both sides (rebuilt after any call that changed either tree). states = distinct configurations built; transitions = calls compared; distinct_nontrivial = distinct (call, class of the acting user on the operand, kernel outcome) triples observed",
+			"rule":       "every configuration of a block (call shape x acting user) = full product of the per-node covering sets of (owner, group, mode); each built by an administrator history on a fresh MemFS and on tmpfs, then every call of the shape is executed on both sides (rebuilt after any call that changed either tree). After every call, allowed or refused, the MemFS tree (type, mode, owner, group, content, link count, existence of every entry) is compared with the kernel's (the tree before the call when the kernel refused a single system call); a call refused by MemFS alone must leave the MemFS tree unchanged. states = distinct configurations built; transitions = calls compared; distinct_nontrivial = distinct (call, class of the acting user on the operand, kernel outcome) triples observed",
 			"samples":    samples,
 			"exhaustive": exhaustive, "bound": bound,
 			"concurrent_part": conc,
@@ -478,6 +478,8 @@ func main() {
 			"chmod with S_ISGID by an owner who is not in the file's group: the kernel silently clears the bit, the property does not name that rule; a tree difference consisting only of S_ISGID present on the avfs side after Chmod/File.Chmod is masked (masked_chmod_setgid_cleared_by_kernel)",
 			"os.RemoveAll of a non-empty directory opens the parent directory for reading after the plain remove failed; a refusal whose only cause is missing read permission on the parent is an artefact of Go's strategy and is not compared (skipped_go_removeall_parent_read_artefact)",
 			"umask is varied for creating calls only; other calls run with umask 022",
+			"chown arguments are taken from {-1, the actor's uid, one other uid} x {-1, the actor's group, the other group} (9 forms, all on Chown of a file; on Lchown, File.Chown and on directories quick uses a subset that always holds the form user refused + group allowed, thorough all 9 on Lchown and File.Chown); uids/gids unknown to the identity manager are not tried",
+			"the kernel tree is not read again after a refused single system call (a refused chown(2), chmod(2), open(2)... changes nothing in the kernel); the MemFS tree is read again after every call",
 			"modification times are not compared (Chtimes: allowed/refused only); size and link count of symbolic links are not compared (C01/C04)",
 			"handles are opened by the acting user on its own view; handles passed between views are not explored",
 			"concurrent part: the oracle is linearizability against the sequential behaviour of the same build (not the kernel); scheduling assumptions as in C06: " + strings.Join(concfs.Assumptions, "; "),
@@ -498,9 +500,9 @@ func main() {
 
 func describeBound(tier string, perPhase map[string][2]int) string {
 	desc := map[string]string{
-		"A": "A: depth<=2 + two-directory Rename/Link + Rename/Link onto an existing file, 16-mode covering set (8 rwx values of the applicable class x other classes 000/777), owner in {actor, other user, root} x group in {own, other}, parent special in {none, sticky, setgid}, creating calls x 4 perms x 5 umasks",
+		"A": "A: depth<=2 + two-directory Rename/Link + Rename/Link onto an existing file, 16-mode covering set (8 rwx values of the applicable class x other classes 000/777), owner in {actor, other user, root} x group in {own, other}, parent special in {none, sticky, setgid}, creating calls x 4 perms x 5 umasks; Chown / Lchown / File.Chown (file and directory handle) argument forms: one field, both fields acceptable, and both fields with exactly one acceptable on its own in both orders (user refused + group allowed, user allowed + group refused) or none, on nodes of the actor's own and of the other group",
 		"B": "B: depth 3, grandparent 16 modes, parent and leaf 8 modes",
-		"C": "C: depth<=2, full covering set (32 modes, 6 owner/group pairs, special bits on every directory)",
+		"C": "C: depth<=2, full covering set (32 modes, 6 owner/group pairs, special bits on every directory), all 9 chown argument forms on Chown, Lchown and File.Chown",
 		"D": "D: depth 3 for a user who owns nothing, grandparent 8 modes x special bits {none, sticky, setgid}, parent and leaf 8 modes",
 	}
 
